@@ -490,6 +490,72 @@ def run_async(pid, tier, seed, res, only=None):
         if got != [11, 21, 31]:
             res.hit("C17", "monitor", "three concurrent awaits of one AsyncDAG (setup node not run yet) with arguments 1, 11, 21 returned %r; their own results are [11, 21, 31]" % (got,), dict(engine="kasync", kind="monitor", variant="setup-gather-%d" % k))
         dist["setup_gather"] += 1
+    # concurrent awaits that progress at different speeds through a chain of async-thread nodes: each await has
+    # its own workers; one finishing must not take anything away from the others; awaits whose nodes wait for
+    # each other (event-driven) all complete
+    for k in range(3 if tier == "quick" else 12):
+        res.evaluations += 1
+
+        def stage(x, j=0):
+            time.sleep(0.002 * (x[0] % 7))
+            return (x[0], x[1] + 1)
+        xs = []
+        for j in range(3):
+            def st_(x):
+                return stage(x)
+            st_.__qualname__ = "stage%d_%d" % (k, j)
+            st_.__name__ = st_.__qualname__
+            xs.append(tawazi.xn(st_, resource=Resource.async_thread if (j + k) % 3 else Resource.thread))
+
+        def mk_cdesc(fs_):
+            def cdesc(x):
+                for f_ in fs_:
+                    x = f_(x)
+                return x
+            return cdesc
+        cdesc = mk_cdesc(list(xs))
+        cdesc.__qualname__ = "stagger%d" % k
+        cdesc.__name__ = cdesc.__qualname__
+        d = tawazi.dag(cdesc, max_concurrency=1 + k % 2, is_async=True)
+        inputs = [(1, 0), (6, 0), (3, 0), (0, 0)]
+
+        async def many2():
+            return await asyncio.wait_for(asyncio.gather(*[d(v) for v in inputs], return_exceptions=True), 15)
+        try:
+            got = asyncio.run(many2())
+        except BaseException as e:  # noqa: BLE001
+            got = e
+        exp = [(v[0], 3) for v in inputs]
+        if got != exp:
+            res.hit("C17", "monitor", "four concurrent awaits of one AsyncDAG progressing at different speeds returned %r; their own results are %r" % (got, exp), dict(engine="kasync", kind="monitor", variant="stagger-%d" % k))
+        # event-driven: await i's node completes only after await i+1's node has STARTED (the last one freely)
+        evs = [threading.Event() for _ in range(3)]
+
+        def gate(i):
+            evs[i].set()
+            if i + 1 < len(evs):
+                if not evs[i + 1].wait(5):
+                    return ("stuck", i)
+            return ("ok", i)
+        gate.__qualname__ = "gate%d" % k
+        gate.__name__ = gate.__qualname__
+        gx = tawazi.xn(gate, resource=Resource.async_thread)
+
+        def gdesc(i):
+            return gx(i)
+        gdesc.__qualname__ = "gated%d" % k
+        gdesc.__name__ = gdesc.__qualname__
+        dg = tawazi.dag(gdesc, max_concurrency=1, is_async=True)
+
+        async def many3():
+            return await asyncio.wait_for(asyncio.gather(*[dg(i) for i in range(3)], return_exceptions=True), 20)
+        try:
+            got = asyncio.run(many3())
+        except BaseException as e:  # noqa: BLE001
+            got = e
+        if got != [("ok", 0), ("ok", 1), ("ok", 2)]:
+            res.hit("C17", "monitor", "three concurrent awaits whose async-thread nodes wait for each other to start (each await has its own worker) returned %r" % (got,), dict(engine="kasync", kind="monitor", variant="gated-%d" % k))
+        dist["stagger_gather"] += 1
     res.distribution["kasync"] = dict(dist)
     res.engine_info["kasync"] = dict(programs=n)
     res.samples.append(dict(engine="kasync", note="liveness: node waits on a threading.Event set by a ticker coroutine of the same loop"))
